@@ -6,6 +6,7 @@ import Cx.Proofs.RevSuffixSet
 import Cx.Proofs.RevSuffixSetInst
 import Cx.Proofs.MultilineRevSuffix
 import Cx.Proofs.RevSuffixDfa
+import Cx.Proofs.MetaFindInst
 import Cx.Proofs.Compile
 import Cx.Proofs.Nfa
 /-
@@ -353,5 +354,100 @@ theorem C02_revSuffixSet_find_eq_reference_closed {N : NFA} {cfg rcfg : Dfa.Conf
     RevSuffixSet.findIndicesAt (RevSuffixSet.realOracles N cfg P.lits (RevSuffix.revSearchLimited N rcfg)
       (RevSuffix.revSearchFull N rcfg)) P h at_ = btSearchAt N h at_ :=
   C02_revSuffixSet_find_eq_reference_real H hL hmz hlit hlb hb (RevSuffix.revDfa_contract N hbrk h) hat
+
+/-! #### the core dispatch of the meta engine (`meta/find_indices.go`): UseNFA / UseDFA / UseBoth / UseBoundedBacktracker
+
+`Cx.MetaFind` transliterates `findIndicesNFA*`, `findIndicesDFA*`, `findIndicesBidirectionalDFA(Core|Longest)`,
+`findIndicesAdaptive*`, `findIndicesBoundedBacktracker*` and the `FindIndices` / `FindIndicesAt` / `findIndicesAtWithState`
+dispatch over component oracles (prefilter, forward / reverse lazy DFA, Pike VM, bounded backtrackers, first-byte set).  The
+theorems are RELATIVE to the component contracts `MetaFind.OraclesOK` (prefilter never skips, forward DFA = end of the reference
+match, reverse DFA = least start and total, Pike VM / backtracker = reference, …) plus explicit hypotheses on the engine flags;
+each hypothesis has a machine-checked counter-model (`MetaFind.cex_*`), three of which reproduce on the real code (see the
+report of `Cx.Proofs.MetaFind`).  The `_closed` versions plug in the component MODELS (`Cx.Proofs.MetaFindInst`).  The check
+replays the model with the real engine's flags, the real prefilter's answers and brute-force engine oracles against the real
+`Engine.FindIndicesAt` on every generated pattern that selects one of the four strategies. -/
+
+/-- **two-pass bidirectional search**: the forward DFA yields the leftmost-first END, the reverse DFA the START — the result is
+    the reference's span.  (`s' = s`: the reference start is the leftmost start of ANY match, and `[s, e)` is itself a match
+    ending at `e`: `MetaFind.two_pass`.) -/
+theorem C02_bidirectional_dfa_eq_reference {O : MetaFind.Oracles} {P : MetaFind.Params} {Mt : Bytes → Nat → Nat → Prop}
+    {ref : Bytes → Nat → Option MetaFind.Span} {h : Bytes} (R : MetaFind.RefOK Mt ref h) (B : MetaFind.BiOK O Mt ref h)
+    (hanch : P.alwaysAnchored = true → ∀ s e, s ≤ h.size → Mt h s e → s = 0) {at_ : Nat} (hat : at_ ≤ h.size) :
+    MetaFind.bidirectional O P h at_ = ref h at_ ∧ MetaFind.bidirectionalCore O P h at_ = ref h at_ ∧
+    MetaFind.bidirectionalLongest O h at_ = ref h at_ :=
+  ⟨MetaFind.bidirectional_eq_ref R B hanch hat, MetaFind.bidirectionalCore_eq_ref R B hanch hat,
+   MetaFind.bidirectionalLongest_eq_ref R B hat⟩
+
+/-- the same over component MODELS only: forward lazy DFA (`SearchAt`), reverse lazy DFA (`SearchReverse` on the model of
+    `nfa.ReverseAnchored(N)`, `BreakAtMatch = false`) -/
+theorem C02_bidirectional_dfa_eq_reference_closed {N : NFA} {cfg rcfg : Dfa.Config} (H : RevSuffix.NfaHyp N cfg)
+    (hbrk : rcfg.breakAtMatch = false) {P : MetaFind.Params} (hP : P.alwaysAnchored = Dfa.alwaysAnchored N)
+    (pf : Bytes → Nat → Option Nat) {h : Bytes} (hb : Dfa.BytesOK h) {at_ : Nat} (hat : at_ ≤ h.size) :
+    MetaFind.bidirectional (MetaFind.realOracles N cfg rcfg pf) P h at_ = btSearchAt N h at_ :=
+  MetaFind.C02_bidirectional_dfa_eq_reference_closed H hbrk hP hb hat
+
+/-- UseNFA: prefilter skip-ahead (only without partial coverage), bounded backtracker iff `CanHandle` and `!canMatchEmpty`,
+    else Pike VM -/
+theorem C02_findIndicesNFA_eq_reference {O : MetaFind.Oracles} {P : MetaFind.Params} {Mt : Bytes → Nat → Nat → Prop}
+    {ref : Bytes → Nat → Option MetaFind.Span} {h : Bytes} (S : MetaFind.OraclesOK O P Mt ref h) {at_ : Nat}
+    (hat : at_ ≤ h.size) :
+    MetaFind.findIndicesNFA O P h = ref h 0 ∧ MetaFind.findIndicesNFAAt O P h at_ = ref h at_ :=
+  ⟨MetaFind.findIndicesNFA_ok S, MetaFind.findIndicesNFAAt_ok S hat⟩
+
+/-- UseDFA (leftmost-first mode; in leftmost-longest mode the functions ARE the Pike VM: `MetaFind.findIndicesDFA_longest`):
+    literal fast path, prefilter skip-ahead + two-pass search, `IsMatch` + Pike VM.  The prefilter must not have partial
+    coverage (the functions do not read the flag).  The candidate loop of `findIndicesDFA` is unreachable
+    (`MetaFind.findIndicesDFA_candLoop_dead`) and correct (`MetaFind.candLoop_eq_ref`). -/
+theorem C02_findIndicesDFA_eq_reference {O : MetaFind.Oracles} {P : MetaFind.Params} {Mt : Bytes → Nat → Nat → Prop}
+    {ref : Bytes → Nat → Option MetaFind.Span} {h : Bytes} (S : MetaFind.OraclesOK O P Mt ref h) (hl : P.longest = false)
+    (D : MetaFind.DfaFlags P) {at_ : Nat} (hat : at_ ≤ h.size) :
+    MetaFind.findIndicesDFA O P h = ref h 0 ∧ MetaFind.findIndicesDFAAt O P h at_ = ref h at_ :=
+  ⟨MetaFind.findIndicesDFA_ok S hl D, MetaFind.findIndicesDFAAt_ok S hl D hat⟩
+
+/-- UseBoth: prefilter (`FindMatch` / literal fast path / Pike VM from the candidate), DFA existence check, NFA fallback -/
+theorem C02_findIndicesAdaptive_eq_reference {O : MetaFind.Oracles} {P : MetaFind.Params} {Mt : Bytes → Nat → Nat → Prop}
+    {ref : Bytes → Nat → Option MetaFind.Span} {h : Bytes} (S : MetaFind.OraclesOK O P Mt ref h)
+    (hcov : P.hasPrefilter = true → P.prefilterPartialCoverage = false) {at_ : Nat} (hat : at_ ≤ h.size) :
+    MetaFind.findIndicesAdaptive O P h = ref h 0 ∧ MetaFind.findIndicesAdaptiveAt O P h at_ = ref h at_ :=
+  ⟨MetaFind.findIndicesAdaptive_ok S hcov, MetaFind.findIndicesAdaptiveAt_ok S hcov hat⟩
+
+/-- UseBoundedBacktracker (leftmost-first mode): first-byte rejection, `CanHandle` fallbacks (two-pass search / Pike VM),
+    ASCII variant, slices, windows — under `SliceInv` (slicing at `at` keeps the reference), `AsciiTailOK` (the bytes the ASCII
+    check does not read are ASCII) and `WindowOK` (the windowed backtracker's hit is the reference's span) -/
+theorem C02_findIndicesBoundedBacktracker_eq_reference {O : MetaFind.Oracles} {P : MetaFind.Params}
+    {Mt : Bytes → Nat → Nat → Prop} {ref : Bytes → Nat → Option MetaFind.Span} {h : Bytes}
+    (S : MetaFind.OraclesOK O P Mt ref h) (hl : P.longest = false) {at_ : Nat} (hat : at_ ≤ h.size)
+    (hsl : P.hasBT = true → MetaFind.SliceInv ref h at_) (hta : P.hasAsciiBT = true → MetaFind.AsciiTailOK P h at_)
+    (hw : P.hasBT = true → (P.hasDFA && P.hasReverseDFA) = false → MetaFind.WindowOK O ref h at_) :
+    MetaFind.findIndicesBT O P h = ref h 0 ∧ MetaFind.findIndicesBTAt O P h at_ = ref h at_ ∧
+    MetaFind.findIndicesBTAtWithState O P h at_ = ref h at_ :=
+  ⟨MetaFind.findIndicesBT_ok S (Or.inl hl), MetaFind.findIndicesBTAt_ok S hl hat hsl hta,
+   MetaFind.findIndicesBTAtWithState_ok S hl hat hsl hta hw⟩
+
+/-- the dispatch: `FindIndices`, `FindIndicesAt`, `findIndicesAtWithState` for the four strategies -/
+theorem C02_metaFind_dispatch_eq_reference {O : MetaFind.Oracles} {P : MetaFind.Params} {Mt : Bytes → Nat → Nat → Prop}
+    {ref : Bytes → Nat → Option MetaFind.Span} {h : Bytes} (S : MetaFind.OraclesOK O P Mt ref h) (st : MetaFind.Strategy)
+    {at_ : Nat} (hat : at_ ≤ h.size) (h0 : MetaFind.StratFlags O P ref h 0 st) (hf : MetaFind.StratFlags O P ref h at_ st) :
+    MetaFind.findIndices O P st h = ref h 0 ∧ MetaFind.findIndicesAt O P st h at_ = ref h at_ ∧
+    MetaFind.findIndicesAtWithState O P st h at_ = ref h at_ :=
+  ⟨MetaFind.findIndices_eq_ref S st h0, MetaFind.findIndicesAt_eq_ref S st hat hf,
+   MetaFind.findIndicesAtWithState_eq_ref S st hat hf⟩
+
+/-- the dispatch over component MODELS only (forward / reverse lazy DFA, Pike VM, backtracker), prefilter relative to `PfOK` -/
+theorem C02_metaFind_dispatch_eq_reference_closed {N : NFA} {cfg rcfg : Dfa.Config} (H : RevSuffix.NfaHyp N cfg)
+    (hbrk : rcfg.breakAtMatch = false) {P : MetaFind.Params} (hP : P.alwaysAnchored = Dfa.alwaysAnchored N)
+    (hcomp : P.pfComplete = false) (hfm : P.pfHasFindMatch = false) {pf : Bytes → Nat → Option Nat} {h : Bytes}
+    (hb : Dfa.BytesOK h) (hpf : P.hasPrefilter = true → MetaFind.PfOK (MetaFind.realOracles N cfg rcfg pf) (Accepts N) h)
+    (st : MetaFind.Strategy) {at_ : Nat} (hat : at_ ≤ h.size)
+    (hf : MetaFind.StratFlags (MetaFind.realOracles N cfg rcfg pf) P (btSearchAt N) h at_ st) :
+    MetaFind.findIndicesAt (MetaFind.realOracles N cfg rcfg pf) P st h at_ = btSearchAt N h at_ :=
+  MetaFind.C02_metaFind_dispatch_closed H hbrk hP hcomp hfm hb hpf st hat hf
+
+/-- a concrete instance of all hypotheses: `[a-z]+z` under UseDFA with the DFA pair -/
+theorem C02_metaFind_closed_instance {h : Bytes} (hb : Dfa.BytesOK h) {at_ : Nat} (hat : at_ ≤ h.size) :
+    MetaFind.findIndicesAt (MetaFind.realOracles RevSuffix.exAzZ Dfa.Config.plain (RevSuffix.revConfig Dfa.Config.plain)
+        (fun _ _ => none)) { hasDFA := true, hasReverseDFA := true } MetaFind.Strategy.dfa h at_ =
+      btSearchAt RevSuffix.exAzZ h at_ :=
+  MetaFind.C02_metaFind_closed_instance hb hat
 
 end Cx.C02
